@@ -258,6 +258,34 @@ def oracle_dense(ctx, r, c, hs, fail):
     ctx.count("dense_mult=%d" % m)
 
 
+SIG_INT = "encoder:refuses-integer-dtype-real-symmetric-coefficients"
+
+
+def oracle_int_dtype(ctx, r, c, hint, fail, loops=None):
+    """a real symmetric nearest-neighbour matrix given with an integer dtype (e.g. -adjacency_matrix())
+    is an admissible coefficient matrix: it must be encoded, and the result must satisfy the property"""
+    import qib
+    from qib.transform.compact_encoding import compact_encode_field_operator
+    inp = {"kind": "enc-int", "shape": [r, c], "hs": [hint]}
+    latt = qib.lattice.IntegerLattice((r, c), pbc=False)
+    field = qib.field.Field(qib.field.ParticleType.FERMION, latt)
+    term = qib.operator.FieldOperatorTerm(
+        [qib.operator.IFODesc(field, qib.operator.IFOType.FERMI_CREATE),
+         qib.operator.IFODesc(field, qib.operator.IFOType.FERMI_ANNIHIL)], np.array(hint, dtype=int))
+    try:
+        op, le = compact_encode_field_operator(qib.operator.FieldOperator([term]))
+    except ValueError as e:
+        fail(SIG_INT, inp, "an encoded operator", repr(e))
+        return
+    # accepted (repaired code): it must agree with the float-dtype encoding
+    H, _ = fermi_operator(r, c, [hint])
+    op2, _ = compact_encode_field_operator(H)
+    same = len(op.pstrings) == len(op2.pstrings) and all(
+        a.paulis == b.paulis and complex(a.weight) == complex(b.weight) for a, b in zip(op.pstrings, op2.pstrings))
+    if not same:
+        fail("encoder:integer-dtype-result-differs-from-float-dtype", inp)
+
+
 # ------------------------------------------------------------------------------- input generation
 VALS = [1, -1, 2, -2, 0.5, -0.5, 1.5, 3, -3, 0.25, -0.75]
 
@@ -429,6 +457,13 @@ def run(ctx):
             if op is not None and loops_of.get((r, c)) is not None:
                 oracle_encoded_strings(ctx, r, c, hs, op, loops_of[(r, c)], fail)
 
+    # ---------------------------------------------------------------- integer-dtype coefficient matrices
+    for (r, c) in [(1, 2), (2, 3), (3, 2)]:
+        latt0 = qib.lattice.IntegerLattice((r, c), pbc=False)
+        hint = (-latt0.adjacency_matrix() + 2 * np.identity(r * c, dtype=int)).astype(int)
+        oracle_int_dtype(ctx, r, c, hint.tolist(), fail, loops_of.get((r, c)))
+        ctx.count("enc_int_dtype")
+
     # ---------------------------------------------------------------- dense oracle (property text, numpy)
     qmax = 12 if ctx.thorough else 10
     t_dense = time.time()
@@ -475,6 +510,8 @@ def replay(ctx, data):
             hits.append(sig)
     elif kind == "shape":
         oracle_strings(ctx, r, c, fail)
+    elif kind == "enc-int":
+        oracle_int_dtype(ctx, r, c, inp["hs"][0], fail)
     elif kind == "enc":
         from qib.transform.compact_encoding import compact_encode_field_operator
         hs = inp["hs"]
